@@ -166,6 +166,37 @@ CLAIMS = {
    note=PROOF_NOTE + 'Modelled, not verified: LMDB (ordered maps, snapshot reads inside a write transaction, atomic commit), the mmap-append event map; the seven index tables are modelled as functions of the set of indexed events with range scans as filter+key-order sort. ' + "PARTIAL: the model derives all index tables from the set of indexed events; that the real index/deindex pairs keep the tables in that relation is exactly what the per-step stats and self-filter comparison checks, not a theorem about the Rust.",
    technique="Lean 4 proof (corollaries of the find_events loop invariant) + differential correspondence on entry counts and the self-filter family",
    design="6/C17"),
+ 'C13': dict(
+   text="Lean theorems on the micro-step crash model: every durable state a store_event call passes through (txn open, padding appended, bytes in place with the "
+        "marker moved, index committed) satisfies the store invariant (every index entry leads to a complete event inside the end marker), keeps every earlier "
+        "offset readable, and has tables equal to those before or after the call - never in between; likewise remove_event; a killed vanish leaves a subset of "
+        "its targets gone and nothing else; whatever state store creation is killed in (absent / empty / sized without header / initialised) the next open "
+        "starts from an empty initialised map. Fault enumeration on the real code through the verif hooks: for each step of each history and each named point "
+        "and occurrence a child dies there by _exit (incl. mid-copy and during file growth), the parent reopens, compares the battery with the model's "
+        "before/after states, and continues the history; the points hit per call are compared with the model's micro-step list.",
+   note=PROOF_NOTE + 'Modelled, not verified: LMDB (ordered maps, snapshot reads inside a write transaction, atomic commit), the mmap-append event map; the seven index tables are modelled as functions of the set of indexed events with range scans as filter+key-order sort. ' + "PARTIAL: process kill only (page cache survives); LMDB's commit atomicity, the kernel and the absence of compiler/CPU reordering across the SeqCst fence are trusted; torn 8-byte marker stores are not modelled.",
+   technique="Lean 4 proof (invariant over micro-step prefixes) + fault enumeration at named kill points with reopen-and-compare",
+   design="6/C13"),
+ 'C14': dict(
+   text="Lean theorems on the small-step scheduler model (threads: waiting for the writer lock / inside the write transaction / done), for EVERY schedule: the "
+        "committed state equals the serial execution of the finished store calls in the order their transactions ended (linearizability); at most one thread is "
+        "inside a write transaction and it holds the lock; every state a reader can snapshot satisfies the store invariant (no index entry without complete "
+        "bytes: the append precedes the commit); a successfully stored non-ephemeral event is retrievable afterwards, so a second submission of the same event "
+        "in either serial order is refused as duplicate (exactly one winner). Correspondence: a schedule controller pauses thread A at each verif yield point "
+        "while thread B runs; replies, blocking behaviour and the battery afterwards must equal the model's serial order; plus 16-thread stress runs judged by "
+        "'some serial order explains it' invariants.",
+   note=PROOF_NOTE + 'Modelled, not verified: LMDB (ordered maps, snapshot reads inside a write transaction, atomic commit), the mmap-append event map; the seven index tables are modelled as functions of the set of indexed events with range scans as filter+key-order sort. ' + "PARTIAL: the model has the lock, snapshots and atomic commit by construction; LMDB's writer mutex, NO_TLS read transactions, the RwLock/Mutex in mmap-append and the memory model are trusted; a reordering bug inside one yield-free region is out of reach. For ephemeral kinds every submission succeeds (they are never indexed): 'exactly one succeeds' is stated for non-ephemeral events.",
+   technique="Lean 4 proof (induction over schedules of a lock-based small-step model) + forced-schedule correspondence through yield points + stress",
+   design="6/C14"),
+ 'C15': dict(
+   text="Lean theorems: the bytes an offset denotes are stable in every continuation (from C04); on the model in which a growth step may move the mapping's base to "
+        "any address, references stay valid iff the base stayed, in particular across any number of non-growing stores; a concrete execution in which one growth "
+        "step leaves an earlier reference dangling (growth_may_move_witness): the property as stated is FALSE of the code. Check on the real store: addresses and "
+        "bytes of all earlier events re-read after every store across growth steps; an address change at a growth step is the recorded KNOWN FINDING (printed, "
+        "exit 0); changed bytes or an address change without growth are violations.",
+   note=PROOF_NOTE + 'Modelled, not verified: LMDB (ordered maps, snapshot reads inside a write transaction, atomic commit), the mmap-append event map; the seven index tables are modelled as functions of the set of indexed events with range scans as filter+key-order sort. ' + "PARTIAL / open finding: where the OS places the new mapping is not determined by the program; no small safe repair exists inside pocket (mmap-append maps anew and unmaps the old mapping).",
+   technique="Lean 4 proof (validity-iff-base-unchanged, negation witness) + address/byte comparison on the real store with known-findings matching",
+   design="6/C15"),
 }
 
 checks = []
